@@ -115,7 +115,19 @@ def chunk_xor_bytes(chunk, acc):
             acc.case((data, key), nontrivial=True, outcome=got if isinstance(got, str) else hash(got))
             if got != ref_xor(data, key) or call(utils.xor, got, key) != data:
                 acc.fail("C20/xor/value", {"kind": "xor", "data": data.hex(), "key": key.hex()}, ref_xor(data, key).hex()[:80], (got if isinstance(got, str) else got.hex())[:80])
-    acc.sample({"data_len": 1024, "key_len": 7})
+    for n in (65535, 65536, 65537, 131075, 200001):
+        data = bytes(lcg(n, acc.seed + n))
+        for kl in (1, 3, 4, 5, 7, 13, 256):
+            key = bytes((b % 255) + 1 for b in lcg(kl, acc.seed + kl))
+            acc.states += 1
+            acc.transitions += 1
+            got = call(utils.xor, data, key)
+            exp = bytes(a ^ b for a, b in zip(data, (key * (n // kl + 1))[:n]))
+            acc.case(("big", n, kl), outcome=hash(got) if isinstance(got, bytes) else got)
+            if got != exp:
+                i = next((i for i in range(n) if isinstance(got, bytes) and i < len(got) and got[i] != exp[i]), -1)
+                acc.fail("C20/xor/value/large-buffer", {"kind": "xor_big", "len": n, "keylen": kl, "seed": acc.seed}, f"repeating-key xor of {n} bytes", got if isinstance(got, str) else f"len={len(got)} first difference at byte {i}")
+    acc.sample({"data_len": 1024, "key_len": 7, "large_buffers": [65535, 65536, 65537, 131075, 200001]})
 
 
 def chunk_netbios(chunk, acc):
@@ -426,6 +438,12 @@ def replay(case):
         g = (call(utils.is_stager_x86, u), call(utils.is_stager_x64, u))
         e = (ref_x86(u), ref_x64(u))
         return {"ok": g == e, "expected": list(e), "observed": list(g)}
+    if k == "xor_big":
+        from vmc.runner import Acc
+
+        a = Acc("replay", "quick", case["seed"])
+        chunk_xor_bytes({}, a)
+        return {"ok": not a.violations, "expected": a.violations[0]["expected"] if a.violations else None, "observed": a.violations[0]["observed"] if a.violations else None}
     if k in ("pack", "pack_auto", "unpack", "random", "random_invalid", "staged"):
         from vmc.runner import Acc
 
